@@ -71,8 +71,9 @@ def run(tier):
     r = sidecheck.gen(wd, "s-unchecked", "de", maxatt=2, maxrefs=2, devariant="unchecked", export=False)
     expect(res, "SideTables variant unchecked violates NoPanic", r.violation is not None, str(r.violation))
 
-    r = sidecheck.gen_nested_recv(wd, "nr-clear", variant="clear", export=False)
-    expect(res, "NestedRecv variant clear violates SelfContained", r.violation is not None, str(r.violation))
+    for v in ("clear", "noinstall"):
+        r = sidecheck.gen_nested_recv(wd, "nr-" + v, variant=v, export=False)
+        expect(res, "NestedRecv variant %s violates SelfContained" % v, r.violation is not None, str(r.violation))
 
     import prop_c20
     mod = "A_wf"
